@@ -27,8 +27,8 @@ def scalar(conv, meth, amb, s, p):
 
 class C16(SimpleProperty):
     id = "C16"
-    theorems = ["C16_pd", "C16_pd_others", "C16_file", "C16_file_others", "C16_atomic"]
-    lean_modules = ["CuriesVerif.Properties.C16"]
+    theorems = ["C16_pd", "C16_pd_others", "C16_file", "C16_file_others", "C16_atomic", "C16_file_bytes", "C16_atomic_bytes"]
+    lean_modules = ["CuriesVerif.Properties.C16", "CuriesVerif.Properties.Bytes"]
     rule = ("one case = one strict converter, one table of 1-5 rows x 2-4 columns of string cells (convertible URIs / "
             "CURIEs / prefixes, unknown ones, delimiter-free and empty cells, cells with quotes, tabs, newlines, carriage "
             "returns, commas), one of the seven bulk methods with random strict / passthrough / ambiguous flags, column "
@@ -122,6 +122,7 @@ class C16(SimpleProperty):
                 with open(path, "w", newline="") as fh:
                     csv.writer(fh, delimiter=sep).writerows(case["rows"])
                 before = open(path, "rb").read()
+                out["text0"] = cps(open(path, newline="", encoding="utf-8").read())
                 try:
                     m = getattr(conv, "file_" + case["meth"])
                     m(path, case["col"], sep=case["sep"], header=case["header"], strict=case["s"], passthrough=case["p"],
@@ -131,6 +132,7 @@ class C16(SimpleProperty):
                     out["result"] = classify(e)
                 after = open(path, "rb").read()
                 out["unchanged"] = before == after
+                out["text1"] = cps(open(path, newline="", encoding="utf-8").read())
                 with open(path, newline="") as fh:
                     out["rows"] = list(csv.reader(fh, delimiter=sep))
             finally:
@@ -181,6 +183,7 @@ class C16(SimpleProperty):
             req["target"] = case["target"]
         else:
             req["header"] = case["header"]
+            req["sep"] = ord(case["sep"] or "\t")
         return req
 
     def compare(self, case, impl, resp):
@@ -203,6 +206,11 @@ class C16(SimpleProperty):
             mrows = [[uncps(c) for c in r] for r in resp["rows"]]
             if mrows != impl["rows"]:
                 diffs.append({"step": 0, "op": "file_" + case["meth"] + " rows", "implementation": impl["rows"], "model": mrows})
+            # the characters on disk, before and after, against the csv model (Model/Csv.lean, Model/Files.lean)
+            for key, what in (("text0", "text of the file before the call"), ("text1", "text of the file after the call")):
+                if impl.get(key) != resp.get(key):
+                    diffs.append({"step": 0, "op": what, "implementation": uncps(impl.get(key) or []),
+                                  "model": uncps(resp.get(key) or [])})
         return diffs
 
     def laws(self, case, impl):
